@@ -11,6 +11,14 @@ Proof. vm_compute. reflexivity. Qed.
 Lemma sanity_versions_is_spec : sanity_versions = [1%N].
 Proof. vm_compute. reflexivity. Qed.
 
+(** The mechanism the model mirrors is the one the code has (regenerated
+    structural facts about Unmarshal and Marshal: decode into the struct, look
+    the version up, decode the SAME bytes into a map and require every listed
+    key in it, run the version's sanity checker; Marshal checks before it
+    encodes). *)
+Lemma mechanism_facts_hold : forallb snd keyid_mechanism_facts = true /\ length keyid_mechanism_facts = 6%nat.
+Proof. vm_compute. split; reflexivity. Qed.
+
 Lemma never_touch_is_1 : never_touch = 1%Z.
 Proof. reflexivity. Qed.
 
